@@ -945,6 +945,196 @@ def step_system(R, mols, limit, cap_items=400):
     return init, rows, keyid
 
 
+# ------------------------------------------------------------------------------------------------
+# public entry points of the built-in collections (R): PreparedReactor.__call__, deprotection functions, copy_metadata
+# ------------------------------------------------------------------------------------------------
+
+def prepared_reactor_clauses(pr, mols, cap=80):
+    """`PreparedReactor.__call__` against its parts (real code only): one-shot without alerts = the reactions of its one-shot
+    template Reactors in template order, each string once; with alerts = nothing when a global alert matches a reactant, else
+    the same with the alerted templates left out; multistage mode: product numbers unique, and every one-shot product state
+    is delivered."""
+    try:
+        return _prepared_reactor_clauses(pr, mols, cap)
+    except Exception as e:
+        return [('prepared-reactor', f'{pr!r} raised {type(e).__name__}: {e} on {[str(m) for m in mols]}')]
+
+
+def _prepared_reactor_clauses(pr, mols, cap):
+    from chython.reactor.reactor import fix_mapping_overlap
+    bad = []
+    hits = lambda a, m: next(iter(a.get_mapping(m)), None) is not None
+
+    def expected(skip_alerted):
+        if skip_alerted and any(hits(a, m) for a in pr.global_alerts for m in mols):
+            return []
+        out, seen = [], set()
+        ms = fix_mapping_overlap([m.copy() for m in mols])
+        for rx, al in zip(pr.rxn_os, pr.alerts):
+            if skip_alerted and any(hits(a, m) for a in al for m in mols):
+                continue
+            for r in itertools.islice(rx(*[m.copy() for m in ms]), cap + 1):
+                if str(r) not in seen:
+                    seen.add(str(r))
+                    out.append(r)
+        return out
+
+    for ca in (False, True):
+        exp = expected(ca)
+        if len(exp) > cap:
+            return bad
+        got = list(itertools.islice(pr(*[m.copy() for m in mols], check_alerts=ca), cap + 2))
+        if [str(r) for r in got] != [str(r) for r in exp]:
+            bad.append(('one-product-per-match', f'{pr!r}(check_alerts={ca}) on {[str(m) for m in mols]} delivers '
+                                                 f'{[str(r) for r in got][:4]} but its templates deliver {[str(r) for r in exp][:4]}'))
+    one = expected(True)
+    multi = list(itertools.islice(pr(*[m.copy() for m in mols], one_shot=False), cap + 1))
+    if len(multi) <= cap:
+        # (the multistage mode de-duplicates by the string of the INNER reaction, whose reactants differ from stage to stage:
+        #  two routes to the same overall products are two deliveries — not required to be merged by the property)
+        for r in multi:
+            nums = [n for p_ in r.products for n in p_]
+            if len(nums) != len(set(nums)):
+                bad.append(('unique-numbers', f'{pr!r}(one_shot=False): product atom numbers repeat in {r}'))
+                break
+        if all(string_stable(m) for m in mols):
+            have = {state_key(r.products) for r in multi}
+            for r in one:
+                if state_key(r.products) not in have and all(string_stable(m) for m in r.products):
+                    bad.append(('exhaustive-complete', f'{pr!r}(one_shot=False) does not deliver the one-shot product state '
+                                                       f'{list(state_key(r.products))} on {[str(m) for m in mols]}'))
+                    break
+    return bad
+
+
+def deprotection_group_clauses(name, mol, limit=40):
+    """the public deprotection function of a group against its parts: apply the group's rules in order, each until it no longer
+    matches, always taking the first product of `Transformer(rule)` — and the result must not match the last applied rule"""
+    import chython.reactor.deprotection as dep
+    from chython import smarts, Transformer
+    try:
+        rules = getattr(dep, '_' + name)
+        exp, steps = mol.copy(), 0
+        for r, p, *_ in rules:
+            T = Transformer(smarts(r), smarts(p))
+            while steps < limit:
+                nxt = next(T(exp), None)
+                if nxt is None:
+                    break
+                exp, steps = nxt, steps + 1
+        if steps >= limit:
+            return []
+        got = getattr(dep, name)(mol.copy())
+        if sig_str(got) != sig_str(exp) or sorted(got) != sorted(exp):
+            return [('one-product-per-match', f'deprotection.{name}({mol}) gives {got} (atoms {sorted(got)}) but applying its rules '
+                                              f'one match at a time gives {exp} (atoms {sorted(exp)})')]
+    except Exception as e:
+        return [('prepared-reactor', f'deprotection.{name}({mol}) raised {type(e).__name__}: {e}')]
+    return []
+
+
+def apply_all_clauses(mol):
+    """`deprotection.apply_all` = the group functions chained in the collection's order"""
+    import chython.reactor.deprotection as dep
+    try:
+        exp = mol.copy()
+        for name in dep._groups:
+            exp = getattr(dep, name)(exp)
+        got = dep.apply_all(mol.copy())
+        if sig_str(got) != sig_str(exp) or sorted(got) != sorted(exp):
+            return [('one-product-per-match', f'deprotection.apply_all({mol}) gives {got} but chaining the group functions gives {exp}')]
+    except Exception as e:
+        return [('prepared-reactor', f'deprotection.apply_all({mol}) raised {type(e).__name__}: {e}')]
+    return []
+
+
+def metadata_clauses(q, r, mol):
+    """`copy_metadata`: with True every product carries the reactant's metadata, with False (default) none of it"""
+    from chython import Transformer
+    m = mol.copy()
+    m.meta.update({'source': 'c16', 'n': 7})
+    bad = []
+    for flag in (True, False):
+        try:
+            for p_ in itertools.islice(Transformer(q, r, copy_metadata=flag)(m), 3):
+                if dict(p_.meta) != (dict(m.meta) if flag else {}):
+                    bad.append(('frame-atoms', f'copy_metadata={flag}: product metadata {dict(p_.meta)} for reactant metadata {dict(m.meta)}'))
+        except Exception:
+            pass
+    if dict(m.meta) != {'source': 'c16', 'n': 7}:
+        bad.append(('frame-atoms', 'the reactant metadata was modified'))
+    return bad
+
+
+def probe_public(inp):
+    import chython.reactor.reactions as rx
+    from chython import smarts
+    if inp['what'] == 'prepared':
+        mols = [wire.ints_to_mol(w, calc=True)[0] for w in inp['wires']]
+        bad = prepared_reactor_clauses(getattr(rx, inp['name']), mols)
+    elif inp['what'] == 'deprotection':
+        mol = wire.ints_to_mol(inp['wire'], calc=True)[0]
+        bad = apply_all_clauses(mol) if inp['name'] == 'apply_all' else deprotection_group_clauses(inp['name'], mol)
+    else:
+        mol = wire.ints_to_mol(inp['wire'], calc=True)[0]
+        bad = metadata_clauses(smarts(inp['pattern']), parse_repl(inp['replacement']), mol)
+    return bool(bad), '; '.join(f'{c}: {d}' for c, d in bad[:3]) or 'public entry point clauses hold'
+
+
+def add_public_clauses(ctx):
+    import chython.reactor.reactions as rx
+    import chython.reactor.deprotection as dep
+    from chython import smiles, smarts
+    rng = ctx.rng
+    # prepared reactors: the first input set of two of their templates, and one set with an alerted molecule added
+    for name in rx.__all__:
+        if name in ('PreparedReactor', 'prepare_reactor'):
+            continue
+        pr = getattr(rx, name)
+        idx = [0] + ([rng.randrange(1, len(pr.rxn_os))] if len(pr.rxn_os) > 1 else []) + \
+              (list(range(1, len(pr.rxn_os))) if not ctx.quick else [])
+        done = set()
+        for i in idx:
+            if i in done:
+                continue
+            done.add(i)
+            sets = reactor_inputs(ctx, list(pr.rxn_os[i]._patterns), 0)[:1]
+            alerts = list(pr.global_alerts) + [a for al in pr.alerts for a in al]
+            extra = [m for _, m in blocks() if any(a < m for a in alerts)][:1]
+            for tag, ms in sets + [(tag + '+alerted', ms + [e.copy()]) for tag, ms in sets for e in extra]:
+                if sum(len(m) for m in ms) > 40:
+                    continue
+                ctx.count(('prepared', name, tag))
+                ctx.dist('prepared-reactor-checked')
+                for cl, det in prepared_reactor_clauses(pr, ms):
+                    ctx.fail(f'C16/{cl}', det, {'kind': 'public', 'what': 'prepared', 'name': name, 'wires': [wire.mol_to_ints(m) for m in ms]})
+    # deprotection functions on their rules' own test molecules; apply_all on a sample
+    allt = []
+    for name in dep._groups:
+        tests = [t for rule in getattr(dep, '_' + name) for t in rule[2:]]
+        for t in (tests[:2] if ctx.quick else tests):
+            try:
+                mol = smiles(t)
+            except Exception:
+                continue
+            allt.append(mol)
+            ctx.count(('deprotection-public', name, t))
+            ctx.dist('deprotection-function-checked')
+            for cl, det in deprotection_group_clauses(name, mol):
+                ctx.fail(f'C16/{cl}', det, {'kind': 'public', 'what': 'deprotection', 'name': name, 'wire': wire.mol_to_ints(mol)})
+    for mol in rng.sample(allt, min(len(allt), 6 if ctx.quick else 60)) + [smiles('CC(C)(C)OC(=O)NCCOC(C)=O'), smiles('CCO')]:
+        ctx.count(('apply_all', str(mol)))
+        ctx.dist('apply-all-checked')
+        for cl, det in apply_all_clauses(mol):
+            ctx.fail(f'C16/{cl}', det, {'kind': 'public', 'what': 'deprotection', 'name': 'apply_all', 'wire': wire.mol_to_ints(mol)})
+    # copy_metadata
+    for qs, rs, ms in (('[C:1][O;D1:2]', '[A:1][S:2]', 'CCO'), ('[C;D1:1]', '[A:1][N;h2:7]', 'CC'), ('[C:1]=[O:2]', '[A:1]-[A:2]', 'CC(C)=O')):
+        mol = smiles(ms)
+        ctx.count(('metadata', qs, ms))
+        for cl, det in metadata_clauses(smarts(qs), parse_repl(rs), mol):
+            ctx.fail(f'C16/{cl}', det, {'kind': 'public', 'what': 'metadata', 'pattern': qs, 'replacement': rs, 'wire': wire.mol_to_ints(mol)})
+
+
 ION_POOL = ['[Na+]', '[K+]', '[Cl-]', '[Br-]', '[Ca+2]', '[Mg+2]', 'CC(=O)[O-]', 'C[NH3+]', '[O-]S(=O)(=O)[O-]', '[NH4+]', '[OH-]', '[Al+3]',
             'O', 'CCO', '[O-]C(=O)CC(=O)[O-]', 'C[N+](C)(C)C', '[NH3+]CC(=O)[O-]', '[Cl-]', '[Na+]', '[O-]P(=O)([O-])[O-]']
 
@@ -2066,6 +2256,7 @@ def correspond(ctx):
     upool = [(t, m) for t, m in mols if 0 < len(m) <= 14][:80] + [(b, m) for b, m in blocks() if len(m) <= 12]
     add_union_cases(cases, ctx, upool)
     add_ions_cases(cases, ctx)
+    add_public_clauses(ctx)
     for name, ps, rs, msets, limits in WORKLIST_CASES:
         try:
             pats, prods = [_sm(p) for p in ps], [parse_repl(x) for x in rs]
@@ -2390,6 +2581,8 @@ def probe(inp):
         return probe_reactor(inp)
     if inp.get('kind') == 'numbering-pair':
         return probe_numbering_pair(inp)
+    if inp.get('kind') == 'public':
+        return probe_public(inp)
     if inp.get('kind') == 'override':
         from chython import smarts
         mol = wire.ints_to_mol(inp['wire'], calc=True)[0]
